@@ -429,4 +429,55 @@ example : (numKaRange (.int 1) (.int 3) (.frac (1/2))).toOption.map (·.map Num.
     (match numKaRange (.int 1) (.int 3) (.int 0) with | .error .funArg => true | _ => false) = true := by
   constructor <;> decide +kernel
 
+/-! ## C12: aggregates on arrays of same-dimension quantities -/
+
+/-- **C12 (aggregates on quantities) inside the unified evaluator.**  `PIPE_array_aggregates` is about
+    arrays of plain numbers.  For an array of quantities of ONE dimension `d` — base-unit magnitudes `xs`
+    (stored numbers), whatever units they were written in — `sum`, `mean`, `min`, `max`, `median`, `in` and
+    `prod` dispatched over the generated registry are the array fragment's functions on the magnitudes
+    (`Arr.arraySum`, `arrayMean`, `arrayMin`, `arrayMax`, `arrayMedian`, `inArray`, `arrayProd`: the functions
+    `C12_sum_prod_size_in`, `C12_mean`, `C12_min_max`, `C12_median` are about), with the dimension the
+    property demands:
+
+    * `sum`, `mean`, `min`, `max`, `median` of lengths are a length (dimension `d`; `mean` divides the sum
+      by the PLAIN number of elements, `median` halves the sum of the middle pair);
+    * `x in xs` is the plain 0 / 1;
+    * `prod` carries the dimension added once per element (`prodDim`);
+    * the empty array: `sum` is the plain 0, `prod` the plain 1, `mean`/`min`/`max`/`median` FunctionArgError;
+    * failures (an overflowing float magnitude) have the same class. -/
+theorem PIPE_qty_aggregates (xs : List Num) (hc : ∀ x ∈ xs, Canon x) (d : List Int) (hd : d.length = nBase) (x : Num) :
+    dispatchTop "sum" [.arr (xs.map (fun m => Val.qty m d))] [] =
+      (if xs = [] then .ok (.num (.int 0)) else liftW (fun m => Val.qty m d) (Arr.arraySum xs)) ∧
+    dispatchTop "mean" [.arr (xs.map (fun m => Val.qty m d))] [] = liftW (fun m => Val.qty m d) (Arr.arrayMean xs) ∧
+    dispatchTop "min" [.arr (xs.map (fun m => Val.qty m d))] [] = liftW (fun m => Val.qty m d) (Arr.arrayMin xs) ∧
+    dispatchTop "max" [.arr (xs.map (fun m => Val.qty m d))] [] = liftW (fun m => Val.qty m d) (Arr.arrayMax xs) ∧
+    dispatchTop "median" [.arr (xs.map (fun m => Val.qty m d))] [] = liftW (fun m => Val.qty m d) (Arr.arrayMedian xs) ∧
+    dispatchTop "in" [.qty x d, .arr (xs.map (fun m => Val.qty m d))] [] = .ok (.num (Arr.inArray x xs)) ∧
+    dispatchTop "prod" [.arr (xs.map (fun m => Val.qty m d))] [] =
+      (liftE (Arr.arrayProd xs)).map (fun r => match xs.length with
+        | 0 => Val.num r
+        | k + 1 => Val.qty r (prodDim d (k + 1))) := by
+  have W := wraps_qty d hd
+  refine ⟨dispatch_sum_wrap W _ xs hc, dispatch_mean_wrap W _ xs hc, dispatch_min_wrap W _ xs hc,
+    dispatch_max_wrap W _ xs hc, dispatch_median_qty _ xs hc d hd, dispatch_in_wrap W _ x xs, ?_⟩
+  rw [dispatchTop, dispatchFuel, dispatch_prod_qty 7 d xs]
+  cases xs.length <;> rfl
+
+/-- the same generic lemmas at `wrap = Val.num` give `PIPE_array_aggregates` / `PIPE_array_sum` back:
+    the element kind enters only through `Wraps` -/
+example (xs : List Num) (hc : ∀ x ∈ xs, Canon x) :
+    dispatchTop "mean" [.arr (xs.map .num)] [] = liftW Val.num (Arr.arrayMean xs) :=
+  dispatch_mean_wrap wraps_num _ xs hc
+
+/-- aggregates of quantities in mixed units of one dimension, through the whole pipeline -/
+example : (runText "sum({1 m, 25 cm}) == 125 cm").render = "ok 1\n" ∧
+    (runText "mean({1 m, 2 m, 30 cm}) == 110 cm").render = "ok 1\n" ∧
+    (runText "min({1 m, 25 cm}) == 25 cm").render = "ok 1\n" ∧
+    (runText "max({1 m, 25 cm, 2 km}) == 2 km").render = "ok 1\n" ∧
+    (runText "(500 mm) in {1 m, 50 cm}").render = "ok 1\n" ∧
+    (runText "prod({2 m, 3 m}) == 6 m^2").render = "ok 1\n" ∧
+    (runText "mean({})").render = "err funarg" ∧
+    (runText "sum({1 m, 2 s})").render = "err incompatible" := by
+  decide +kernel
+
 end KaVerif
